@@ -380,7 +380,7 @@ def pexOpa : Opa := fun p =>
     peer is not a trusted proxy, so `Ssl-Client-Cert` is ignored) -/
 example : handlePolicy pexCfg pexUrl pexOpa (pexReq "bEARER tokA" (.sign "a" true true)) =
     { out := .resp { status := 200, ip := "1.2.3.4", user := "alice",
-                     events := [⟨"getkey", "t0", "a"⟩, ⟨"sign", "t0", "a"⟩] },
+                     events := [⟨"getkey", "t0", "k1"⟩, ⟨"sign", "t0", "k1"⟩] },
       post := some { dest := pexUrl, wrapped := true,
                      input := { path := "/sign", query := [("filename", "a.ps1"), ("key", "a"), ("ps-style", ".ps1"), ("sigtype", "ps")],
                                 token := "tokA", fingerprint := "", clientCert := [] } } } := by decide
